@@ -305,7 +305,17 @@ def run_hyp(desc):
 
 
 FS_NAMES = ['~', '~root', '~nosuchuser', '*', '?', '[a]', '{a,b}', '!x', '-x', 'a|b', '@(a)', '!(a)', 'a b', 'a\\b', '(', ')', '[', ']', '{', '}', 'a', 'ab', 'x',
-            '~a', '-', '!', '**', 'a~', '[!a]', '+(a)', '.~', '~.']
+            '~a', '-', '!', '**', 'a~', '[!a]', '+(a)', '.~', '~.', 'A', 'AB', 'A|B', '{A,B}']
+FS_SPEC = [('f', n) for n in FS_NAMES if '/' not in n] + [('d', 'd~'), ('f', 'd~/~'), ('d', 'D~'), ('f', 'D~/~')]
+FS_DEEP = ['d~/~', 'D~/~']
+FS_PLATS = [[], ['FORCEWIN'], ['FORCEWIN', 'FORCEUNIX']]
+
+
+def fs_flagval(names, plat):
+    fl = flagval(names, 'gl', False) & ~(F.FORCEUNIX | F.FORCEWIN)
+    for n in plat:
+        fl |= getattr(G, n)
+    return fl
 
 
 def run_fs(desc):
@@ -317,23 +327,24 @@ def run_fs(desc):
     out.exhaustive = True
     s, S = desc['shard'], desc['of']
     from .. import fscommon as FC
-    spec = [('f', n) for n in FS_NAMES if '/' not in n] + [('d', 'd~'), ('f', 'd~/~')]
-    with FC.built_tree(spec) as (root, _r):
+    with FC.built_tree(FS_SPEC) as (root, _r):
         on_disk = sorted(os.listdir(root))
         idx = 0
-        for name in on_disk + ['d~/~']:
+        for name in on_disk + FS_DEEP:
             for i in range(4096):
                 idx += 1
                 if idx % S != s or (i % 7 and i not in (0, 4095, 64, 1 << 6 | 1)):
                     continue
                 names = subset(i)
-                fl = flagval(names, 'gl', False) & ~(F.FORCEUNIX)
+                # the platform flags are ignored by anything that touches the file system: the host decides
+                plat = FS_PLATS[(i // 7) % 3]
+                fl = fs_flagval(names, plat)
                 pat = G.escape(name)
-                case = {'s': name, 'pattern': pat, 'flags': names, 'mode': 'fs', 'win': False}
+                case = {'s': name, 'pattern': pat, 'flags': names, 'mode': 'fs', 'win': False, 'plat': plat}
                 try:
                     with util.watchdog(5), util.ScandirCounter(2000):
                         res = G.glob(pat, flags=fl, root_dir=root)
-                        acc = G.globfilter(on_disk + ['d~/~', 'd~'], pat, flags=fl | G.REALPATH, root_dir=root)
+                        acc = G.globfilter(on_disk + FS_DEEP + ['d~', 'D~'], pat, flags=fl | G.REALPATH, root_dir=root)
                 except util.HarnessBudget:
                     out.stats['watchdog_skipped'] += 1
                     continue
@@ -342,7 +353,7 @@ def run_fs(desc):
                     continue
                 out.evaluations += 2
                 icase = 'IGNORECASE' in names
-                want = {n for n in on_disk + ['d~/~'] if (n.lower() == name.lower() if icase else n == name)}
+                want = {n for n in on_disk + FS_DEEP if (n.lower() == name.lower() if icase else n == name)}
                 if set(res) != want:
                     out.violation(dict(case, problem='glob(escape(name)) does not return exactly the name', got=sorted(res)[:6], want=sorted(want)),
                                   size=len(name) * 10 + len(names), bucket=('fs-glob', name))
@@ -361,13 +372,12 @@ def replay(case):
     if case.get('mode') == 'fs':
         import os
         from .. import fscommon as FC
-        spec = [('f', n) for n in FS_NAMES if '/' not in n] + [('d', 'd~'), ('f', 'd~/~')]
-        with FC.built_tree(spec) as (root, _r):
-            fl = flagval(case['flags'], 'gl', False) & ~(F.FORCEUNIX)
+        with FC.built_tree(FS_SPEC) as (root, _r):
+            fl = fs_flagval(case['flags'], case.get('plat', []))
             res = G.glob(case['pattern'], flags=fl, root_dir=root)
-            acc = G.globfilter(sorted(os.listdir(root)) + ['d~/~', 'd~'], case['pattern'], flags=fl | G.REALPATH, root_dir=root)
+            acc = G.globfilter(sorted(os.listdir(root)) + FS_DEEP + ['d~', 'D~'], case['pattern'], flags=fl | G.REALPATH, root_dir=root)
             icase = 'IGNORECASE' in case['flags']
-            want = {n for n in sorted(os.listdir(root)) + ['d~/~'] if (n.lower() == case['s'].lower() if icase else n == case['s'])}
+            want = {n for n in sorted(os.listdir(root)) + FS_DEEP if (n.lower() == case['s'].lower() if icase else n == case['s'])}
             return set(res) == want and set(acc) == want, {'glob': res, 'matched': acc, 'want': sorted(want)}
     o = Outcome()
     check_string(case['s'], case['flags'], case['mode'], case['win'], o, 'replay', converse=case.get('converse', False))
